@@ -1494,6 +1494,12 @@ func (e *Entry) dup() *Entry {
 		ne.Extra[k] = v
 	}
 
+	// The list attributes may be changed per copy, e.g. by a deviation.
+	if e.ListAttr != nil {
+		la := *e.ListAttr
+		ne.ListAttr = &la
+	}
+
 	return &ne
 }
 
